@@ -83,10 +83,10 @@ theorem main_of_G (e : XExpr) (hwf : wf e = true) (P : Nat) (hp : exprPrec e = P
     · obtain ⟨a1, a2⟩ := wrapq q (by omega) (by omega)
       rw [a1, a2]; exact (hG7.weak q).mono (by omega)
 
-theorem cost_pos (e : XExpr) : 40 ≤ cost e := by
-  cases e <;> simp [cost, size] <;> try omega
-  rename_i x tok d
-  cases d <;> simp [size] <;> omega
+theorem paren_indep {x : XExpr} (hpn : isParenNode x = true) (q q' : Nat) :
+    toks x q = toks x q' ∧ norm x q = norm x q' := by
+  cases x <;> simp [isParenNode] at hpn
+  simp [toks_paren, norm]
 
 /-- Unary-level nodes: everything follows from the native `StB`. -/
 theorem main_of_B (e : XExpr) (hwf : wf e = true) (hp : exprPrec e = unaryPrec) (c : Nat)
@@ -118,25 +118,25 @@ theorem costL_cons (e : XExpr) (l : List XExpr) : costL (e :: l) = cost e + 40 +
 
 mutual
 theorem main : ∀ (e : XExpr), wf e = true → Main e
-  | .ident s, h => main_of_A _ h rfl 2 (by have := cost_pos (.ident s); omega) (by
+  | .ident s, h => main_of_A _ h rfl 2 (by simp [cost, size]) (by
       intro lhs tup r res M ho hk n hn
       obtain ⟨n', rfl⟩ : ∃ n', n = n' + 2 := ⟨n - 2, by omega⟩
       simp only [toks_ident, norm, List.cons_append, List.nil_append] at hk ⊢
       rw [parsePrimary_step (parseOperand_ident n' lhs tup s r ho) rfl]
       exact hk (n' + 1) (by omega))
-  | .lit k v, h => main_of_A _ h rfl 2 (by have := cost_pos (.lit k v); omega) (by
+  | .lit k v, h => main_of_A _ h rfl 2 (by simp [cost, size]) (by
       intro lhs tup r res M ho hk n hn
       obtain ⟨n', rfl⟩ : ∃ n', n = n' + 2 := ⟨n - 2, by omega⟩
       simp only [toks_lit, norm, List.cons_append, List.nil_append] at hk ⊢
       rw [parsePrimary_step (parseOperand_lit n' lhs tup k v r ho) rfl]
       exact hk (n' + 1) (by omega))
-  | .numUnit k v u, h => main_of_A _ h rfl 2 (by have := cost_pos (.numUnit k v u); omega) (by
+  | .numUnit k v u, h => main_of_A _ h rfl 2 (by simp [cost, size]) (by
       intro lhs tup r res M ho hk n hn
       obtain ⟨n', rfl⟩ : ∃ n', n = n' + 2 := ⟨n - 2, by omega⟩
       simp only [toks_numUnit, norm, List.cons_append, List.nil_append] at hk ⊢
       rw [parsePrimary_step (parseOperand_numUnit n' lhs tup k v u r) rfl]
       exact hk (n' + 1) (by omega))
-  | .env s b, h => main_of_A _ h rfl 2 (by have := cost_pos (.env s b); omega) (by
+  | .env s b, h => main_of_A _ h rfl 2 (by simp [cost, size]) (by
       intro lhs tup r res M ho hk n hn
       obtain ⟨n', rfl⟩ : ∃ n', n = n' + 2 := ⟨n - 2, by omega⟩
       cases b
@@ -204,16 +204,20 @@ theorem main : ∀ (e : XExpr), wf e = true → Main e
     obtain ⟨h0, h6, h7⟩ := hconsts
     have hx : wf x = true := by simpa [wf] using h
     have ih := main x hx
-    have hcost : cost (.paren x) = cost x + 40 := by simp [cost, size]; omega
     by_cases hpn : isParenNode x = true
-    · have hxp : exprPrec x = highestPrec := by
-        cases x <;> simp [isParenNode] at hpn
-        rfl
-      obtain ⟨a1, a2⟩ := toks_nowrap (p := lowestPrec) (p' := highestPrec) hx (by omega) (by omega)
-      refine main_of_A _ h rfl (cost x + 8) (by omega) ?_
-      simp only [toks_paren, norm, hpn, if_true]
-      rw [a1, a2]; exact ih.a
-    · refine main_of_A _ h rfl (cost x + 10) (by omega) ?_
+    · have hcost : cost (.paren x) = cost x := by simp [cost, size, hpn]
+      have eqq : ∀ q, toks (.paren x) q = toks x q ∧ norm (.paren x) q = norm x q := by
+        intro q
+        obtain ⟨a1, a2⟩ := paren_indep hpn lowestPrec q
+        simp only [toks_paren, norm, hpn, if_true]
+        exact ⟨a1, a2⟩
+      refine ⟨?_, ?_, ?_, ?_⟩
+      · rw [(eqq _).1, (eqq _).2, hcost]; exact ih.a
+      · rw [(eqq _).1, (eqq _).2, hcost]; exact ih.b
+      · intro q hq; rw [(eqq _).1, (eqq _).2, hcost]; exact ih.g q hq
+      · rw [(eqq _).1, (eqq _).2, hcost]; exact ih.e
+    · have hcost : cost (.paren x) = cost x + 40 := by simp [cost, size, hpn]; omega
+      refine main_of_A _ h rfl (cost x + 10) (by omega) ?_
       obtain ⟨t, tl, hT, hs, _⟩ := toks_head x hx lowestPrec (by omega)
       simp only [toks_paren, norm, hpn, wrapT, if_true, Bool.false_eq_true, if_false]
       exact StA_paren_of_StE ih.e hT hs
